@@ -686,6 +686,31 @@ def subscriptions_contract(h):
     """The four registration methods touch exactly the set their notification walks (set semantics:
     twice = once; unsubscribing removes; the other set is untouched)."""
     if not h.symbolic:
+        # native reading: the real socket object, real callables
+        import asyncio as _aio
+        import pyairtouch.comms.socket as _S
+        import pyairtouch.at4.comms.registry as _reg
+        sk = _S.AirTouchSocket(_aio.new_event_loop(), "console", 9004, _reg.INSTANCE)
+
+        async def cb(*a, **k):
+            pass
+
+        async def other(*a, **k):
+            pass
+        for sub, unsub, attr, oattr in (("subscribe_on_connection_changed", "unsubscribe_on_connection_changed", "_connection_subscribers", "_message_subscribers"),
+                                        ("subscribe_on_message_received", "unsubcribe_on_message_received", "_message_subscribers", "_connection_subscribers")):
+            getattr(sk, sub)(cb)
+            getattr(sk, sub)(cb)
+            h.oblige(f"{sub} twice registers the callable once, in the set its notification walks",
+                     list(getattr(sk, attr)) == [cb] and len(getattr(sk, oattr)) == 0)
+            getattr(sk, unsub)(cb)
+            h.oblige(f"{unsub} removes it", len(getattr(sk, attr)) == 0)
+            try:
+                getattr(sk, unsub)(other)
+                ok = True
+            except Exception:  # noqa: BLE001
+                ok = False
+            h.oblige(f"{unsub} of a callable that was never subscribed is harmless", ok)
         return
     from pyvc.world import SubscriberModel
     W = SockWorld(h)
